@@ -97,7 +97,7 @@ theorem C05_send_total (k : Kcp) (b : Bytes) (h : InvK k) : (send k b).panic = f
 theorem C05_inv_recv (k : Kcp) (buflen : Nat) (h : InvK k) : InvK (recv k buflen).k := recv_total h buflen
 
 theorem C05_update_total (k : Kcp) (now : U32) (h : InvK k) : (update k now).panic = false ∧ InvK (update k now).k :=
-  update_total h now
+  ⟨(update_total h now).1, (update_total h now).2.1⟩
 
 /-- the repaired `SetMtu` (refuses `mtu − 24 > mtuLimit` and shrinking below queued sizes: D1, D2)
 keeps the invariant for EVERY argument -/
@@ -156,6 +156,23 @@ theorem C05_acklist_bound (k : Kcp) (d : Bytes) (regular ackNoDelay : Bool) (now
       (k.mtu / u32 IKCP_OVERHEAD).toNat + d.length / IKCP_OVERHEAD := by
   have h1 := C05_acklist_growth k d regular ackNoDelay now h
   omega
+
+/-- only `Input` can lengthen the ack list (by at most `|d|/24`); a flush empties it; every other
+operation — `Update` included — leaves it as long or shorter -/
+theorem C05_acklist_step (k : Kcp) (op : Op) (h : InvK k) :
+    (step k op).k.acklist.length ≤
+      (match op with
+       | .input d _ _ _ => k.acklist.length + d.length / IKCP_OVERHEAD
+       | .flush _ _ => 0
+       | _ => k.acklist.length) :=
+  step_acklist h op
+
+/-- **along ANY history from `NewKCP`** the ack list is bounded by `ackBound`, a function of the
+operation list alone: the bytes received since the most recent flush, divided by 24 — proportional
+to line rate × flush interval, not to the length of the history -/
+theorem C05_acklist_history (conv : U32) (ops : List Op) :
+    (run (Kcp.new conv) ops).k.acklist.length ≤ ackBound 0 ops :=
+  run_acklist (invK_new conv) 0 (Nat.le_refl _) ops
 
 /-- payload bytes held in a queue -/
 def segBytes (l : List Seg) : Nat := (l.map (·.data.length)).sum
@@ -261,6 +278,9 @@ example : (input (Kcp.new 7) (encodeHdr 7 81 0 32 0 0 0 1501 ++ List.replicate 1
 example : (input (Kcp.new 7) (encodeHdr 7 99 0 32 0 0 0 0) true false 5).ret = -3 := by decide +kernel
 /-- a PUSH leaves one ack-list entry (no flush yet: 1 < 1400/24) -/
 example : (input (Kcp.new 7) exPush true false 5).k.acklist.length = 1 := by decide +kernel
+
+/-- the history bound is small and computable -/
+example : ackBound 0 exOps = 7 := by decide +kernel
 
 /-- the `panic` flags are live, and `InvK` is what rules them out: outside the invariant each of
 the three guarded sites fails (D1: `Send` with `mss > mtuLimit`; D2: `flush` with a queued segment
